@@ -69,6 +69,55 @@ def run(ctx) -> None:
     from . import c02
 
     ctx.reuse("C16.step-twins", c02.no_swallow)
+    # both devices are configured and entered the same way: no class-level settings, no override that skips the base behaviour
+    from . import c17, objmodel
+
+    ctx.guard("C16.override-set", objmodel.worklist_model, "C16.override-set")
+    ctx.reuse("C16.override-set", c17.context)
+
+
+def _pure_super_delegation(f, name: str) -> bool:
+    """docstring, logging calls, then `return super().<name>(<the parameters, unchanged and in order / by their own keyword>)`
+    (or the call as a statement followed by a bare return for a method that returns nothing)"""
+    body = [s_ for s_ in f.node.body if not (isinstance(s_, ast.Expr) and isinstance(s_.value, ast.Constant))]
+    calls = []
+    for s_ in body:
+        if isinstance(s_, ast.Expr) and isinstance(s_.value, ast.Call) and isinstance(s_.value.func, ast.Attribute) and s_.value.func.attr in ("debug", "info", "warning") \
+                and isinstance(s_.value.func.value, ast.Name) and s_.value.func.value.id in ("logger", "_log", "log", "logging", "_logger"):
+            continue
+        if isinstance(s_, ast.Return) and s_.value is None:
+            continue
+        if isinstance(s_, (ast.Return, ast.Expr)) and isinstance(s_.value, ast.Call):
+            calls.append(s_.value)
+            continue
+        return False
+    if len(calls) != 1:
+        return False
+    c = calls[0]
+    if not (isinstance(c.func, ast.Attribute) and c.func.attr == name and isinstance(c.func.value, ast.Call) and isinstance(c.func.value.func, ast.Name) and c.func.value.func.id == "super"):
+        return False
+    a = f.node.args
+    params = [x.arg for x in a.posonlyargs + a.args][1:]
+    kwonly = [x.arg for x in a.kwonlyargs]
+    given = []
+    for x in c.args:
+        if isinstance(x, ast.Starred):
+            if not (a.vararg and isinstance(x.value, ast.Name) and x.value.id == a.vararg.arg):
+                return False
+            continue
+        if not isinstance(x, ast.Name):
+            return False
+        given.append(x.id)
+    for k in c.keywords:
+        if k.arg is None:
+            if not (a.kwarg and isinstance(k.value, ast.Name) and k.value.id == a.kwarg.arg):
+                return False
+            continue
+        if not (isinstance(k.value, ast.Name) and k.value.id == k.arg):
+            return False
+        given.append(k.arg)
+    pos_given = [x.id for x in c.args if isinstance(x, ast.Name)]
+    return pos_given == params[:len(pos_given)] and sorted(given) == sorted(params + kwonly)
 
 
 def override_set(ctx) -> None:
@@ -88,6 +137,8 @@ def override_set(ctx) -> None:
                 ctx.rep.check(ok, rule, c, "pure delegation to the base constructor", f"{dev.name}.__init__ is not a pure delegation to the base constructor ({why}): the device classes are configured differently", where=f.where())
             elif name.startswith("evo_") and name not in base_members:
                 ctx.rep.holds(rule, c, "EVO-only addition (not a device-independent operation)", where=f.where())
+            elif name in base_members and _pure_super_delegation(f, name):
+                ctx.rep.holds(rule, c, f"{dev.name}.{name} hands its own arguments to the base implementation and returns its result (logging aside)", where=f.where())
             elif name in base_members:
                 ctx.rep.refuted(rule, c, f"{dev.name} overrides the shared operation `{name}`: the two devices no longer run the same code for it", where=f.where())
             elif name.startswith("_"):
@@ -115,6 +166,13 @@ def _pure_delegation(ctx, dev: ClassInfo, f):
             sup = is_super[0]
             continue
         # anything that writes self.* or rebinds a parameter is not delegation
+        # (a new private attribute of this class alone - a record of the arguments kept for diagnostics - configures nothing: no
+        # method of the base class can read it)
+        if isinstance(s, ast.Assign) and len(s.targets) == 1 and isinstance(s.targets[0], ast.Attribute) and is_name(s.targets[0].value, f.params[0]) and s.targets[0].attr.startswith("_") \
+                and not any(s.targets[0].attr in {x.attr for x in ast.walk(k.node) if isinstance(x, ast.Attribute)} for k in ctx.prog.mro(dev)[1:] if hasattr(k, "node")) \
+                and all(isinstance(x, (ast.Name, ast.Tuple, ast.Call, ast.Load, ast.Constant, ast.keyword)) for x in ast.walk(s.value)) \
+                and all(ctx.prog.class_by_name(getattr(x.func, "id", "")) is not None for x in ast.walk(s.value) if isinstance(x, ast.Call)):
+            continue
         for sub in ast.walk(s):
             if isinstance(sub, ast.Attribute) and isinstance(sub.ctx, ast.Store):
                 return False, f"`{stmt_key(s)[:50]}` sets state"
